@@ -109,7 +109,7 @@ def entry_cases(rng, tier):
 
 def units():
     thms = ['C11_enter_hyp_mode', 'C11_enter_monitor_mode', 'C11_take_svc', 'C11_take_undef', 'C11_take_smc', 'C11_take_hyp_trap',
-            'C11_take_data_abort', 'C11_take_irq', 'C11_take_fiq', 'C11_take_reset']
+            'C11_take_data_abort', 'C11_take_irq', 'C11_take_fiq', 'C11_take_reset', 'C11_dispatch']
     needs = ['registers.Registers.' + n for n in
              ('exc_vector_base', 'enter_hyp_mode', 'enter_monitor_mode', 'take_hyp_trap_exception', 'take_smc_exception',
               'take_data_abort_exception', 'take_undef_instr_exception', 'take_svc_exception',
